@@ -18,7 +18,7 @@ ASSUMPTIONS = ["integer labels; graphs without self-listed neighbours (an in-mem
                "matching compared on index and best probability (1e-9), paths may differ among equally probable alternatives",
                "label sets whose edge ids collide under hash((a, b)) (e.g. -1 and -2) are an open finding (KF-C12-HASH) and excluded"]
 TOLERANCES = {"logprob": "1e-9 relative", "coordinates": "exact"}
-BUDGET = {"quick": {"shards": 8, "examples": 400}, "thorough": {"shards": 16, "examples": 6000}}
+BUDGET = {"quick": {"shards": 8, "examples": 700}, "thorough": {"shards": 16, "examples": 6000}}
 
 
 def _tmp():
